@@ -3,6 +3,8 @@ package engine
 import (
 	"fmt"
 	"go/types"
+	"sort"
+	"strings"
 )
 
 // AccessLog records heap accesses for the conflict-freedom argument (C06) and
@@ -37,12 +39,31 @@ func (a *AccessLog) note(s *State, p Ptr, write bool) {
 	if !a.On || p.Obj >= a.Since {
 		return
 	}
+	o := s.heap.get(p.Obj)
+	if strings.HasPrefix(o.Tag, "global:zz") {
+		return // harness bookkeeping (call logs)
+	}
+	locked := len(s.locks) > 0
 	if write {
 		if _, ok := a.Writes[p.Obj]; !ok {
 			a.Writes[p.Obj] = s.where()
 		}
-	} else {
-		a.Reads[p.Obj] = true
+		if !locked && !s.owned[p.Obj] {
+			if _, ok := a.Unlocked[p.Obj]; !ok {
+				what := o.Tag
+				if what == "" && o.T != nil {
+					what = o.T.String()
+				}
+				a.Unlocked[p.Obj] = "write to shared " + what + s.where()
+			}
+		}
+		return
+	}
+	a.Reads[p.Obj] = true
+	if !locked && o.Tag == "global:parser" {
+		if _, ok := a.Unlocked[p.Obj]; !ok {
+			a.Unlocked[p.Obj] = "read of the global parser without the mutex" + s.where()
+		}
 	}
 }
 
@@ -229,7 +250,41 @@ func zzAccessStart(s *State, a []Value) Value {
 	return nil
 }
 
-func zzAccessCheck(s *State, a []Value) Value { return true }
+func zzAccessCheck(s *State, a []Value) Value {
+	if s.AccessLog == nil {
+		return true
+	}
+	s.AccessLog.On = false
+	if len(s.AccessLog.Unlocked) == 0 {
+		return true
+	}
+	var ids []int
+	for id := range s.AccessLog.Unlocked {
+		ids = append(ids, id)
+	}
+	sort.Ints(ids)
+	for _, id := range ids {
+		s.Log = append(s.Log, "unowned-access: "+s.AccessLog.Unlocked[id])
+	}
+	s.Out["access"] = s.AccessLog.Unlocked[ids[0]]
+	return false
+}
+
+func zzIsolated(s *State, a []Value) Value {
+	fromF := map[int]bool{}
+	s.reachableFrom(a[0], fromF)
+	fromG := map[int]bool{}
+	if g := s.W.P.Pkg.Var("parser"); g != nil {
+		s.reachObj(s.W.P.globalID[g], fromG)
+	}
+	for id := range fromF {
+		if fromG[id] {
+			s.Log = append(s.Log, fmt.Sprintf("shared object %d (%v) reachable from the parsed function and from the global parser", id, s.heap.get(id).T))
+			return false
+		}
+	}
+	return true
+}
 
 // zzParserClean: the global parser's embedded action state is the zero value.
 func zzParserClean(s *State, a []Value) Value {
